@@ -2,7 +2,7 @@
 Props/C04.lean — a Sensor reports the global field at its pixels, in its own frame;
 left-handed sensors flip x; pixel_agg reduces over exactly each sensor's pixels.
 -/
-import MagpyVerif.Lemmas.Level2
+import MagpyVerif.Lemmas.Level2Compose
 namespace MagpyVerif.C04
 open MagpyVerif MagpyVerif.Level2
 variable {G V : Type}
@@ -39,5 +39,22 @@ theorem pixel_agg_is_reduction {γ : Type} (ks : List (Sens G V)) (g : Sens G V 
   splitRow_pixInds ks g hg
 
 example : splitRow (cumsum 0 [2, 1, 3]) [10, 11, 20, 30, 31, 32] = [[10, 11], [20], [30, 31, 32]] := by decide
+
+
+/-- the reading of sensor `k` at path index `m` for its pixel offset `px` (through
+`C06.level2_refines` this is the element the pipeline returns): the global field at the pixel's
+global position `R_k(m) px + P_k(m)`, rotated into the sensor frame by `R_k(m)⁻¹`, x-flipped for a
+left-handed sensor -/
+theorem sensor_reading [Group G] [AddCommGroup V] [DistribMulAction G V] [BEq G] [LawfulBEq G]
+    (flipX : V → V) (e : Entry G V) (k : Sens G V) (m : Nat) (r : G) (p : V)
+    (hr : clampGet k.ori m = some r) (hp : clampGet k.pos m = some p) :
+    (pixPos k m).map (specValue flipX e k m) =
+      k.pixels.map fun px =>
+        let v := r⁻¹ • ((e.leaves.map fun s => level1 s m (r • px + p)).sum)
+        if k.left then flipX v else v := by
+  simp only [pixPos, hr, hp, List.map_map]
+  apply List.map_congr_left
+  intro px _
+  simp only [Function.comp, specValue, sensT, hr]
 
 end MagpyVerif.C04
